@@ -445,6 +445,18 @@ func (x *Exec) callCommon(st *State, c *ssa.CallCommon, i ssa.Value, pos token.P
 			}
 			return true
 		}
+		if ms != nil && ms.Mode == "log" {
+			// the call is recorded; the callee is assumed not to touch the caller's data structures
+			x.assum["calls of "+ms.Iface+"."+ms.Method+" are recorded and assumed not to modify the engine's state"] = true
+			var res Val
+			if sig.Results().Len() > 0 {
+				res = x.havocVal(st, resType(i, sig), "log")
+				setRes(fr, i, res)
+			}
+			st.dyn = append(st.dyn, DynCall{Site: len(st.dyn), Fn: recv, Args: args, Res: res, Desc: "invoke:" + c.Method.Name()})
+			st.calls["invoke:"+c.Method.Name()]++
+			return true
+		}
 		if ms != nil && ms.Mode == "dispatch" {
 			x.dispatch(st, c, i, recv, args, sig)
 			return true
@@ -496,6 +508,7 @@ func (x *Exec) callCommon(st *State, c *ssa.CallCommon, i ssa.Value, pos token.P
 			setRes(fr, i, res)
 			st.callRes[key] = append(st.callRes[key], res)
 		}
+		st.callArgs[key] = append(st.callArgs[key], args)
 		if fc.ModAll {
 			st.calls["effect:modifies-all "+shortKey(key)]++
 		}
@@ -595,6 +608,17 @@ func (x *Exec) dispatch(st *State, c *ssa.CallCommon, i ssa.Value, recv Val, arg
 			continue
 		}
 		fc, key := x.contractOf(m)
+		if fc == nil && m.Synthetic != "" {
+			// promoted method: use the contract of the declared method of the embedded type
+			if sel := x.L.Prog.MethodSets.MethodSet(t).Lookup(c.Method.Pkg(), c.Method.Name()); sel != nil {
+				if fo, ok := sel.Obj().(*types.Func); ok {
+					if decl := x.L.Prog.FuncValue(fo); decl != nil {
+						m = decl
+						fc, key = x.contractOf(decl)
+					}
+				}
+			}
+		}
 		if fc == nil {
 			x.abstr["dispatch target without contract "+shortKey(key)]++
 			continue
@@ -611,6 +635,9 @@ func (x *Exec) dispatch(st *State, c *ssa.CallCommon, i ssa.Value, recv Val, arg
 		all := append([]Val{rv}, args...)
 		for k, n := range names {
 			if k < len(all) {
+				if k == 0 && m.Signature.Recv() != nil && !types.Identical(m.Signature.Recv().Type(), t) {
+					continue // receiver of a promoted method: the embedded value is not projected
+				}
 				env.vars[n] = all[k]
 			}
 		}
